@@ -556,3 +556,49 @@ def member_required(mem):
         ty = how[2] or mem.get("ty") or ""
         return not ty.startswith("core::option::Option<")
     return None
+
+
+def seq_ser_check(fn):
+    """hand-written sequence Serialize impl: the announced length and the emitted elements agree.
+    Returns (ok, reason, info).  Shape: `let mut seq = s.serialize_seq(Some(X.len()))?; for e in <X> {
+    .. seq.serialize_element(..)? } seq.end()` with exactly one element emitted on every iteration."""
+    from .pathcond import Analysis, effect_paths
+    A = Analysis(fn)
+    calls = [c for c, _, _ in ordered_calls(fn["body"])]
+    hdr = [c for c in calls if c.get("callee") == "serde_core::ser::Serializer::serialize_seq"]
+    if len(hdr) != 1:
+        return False, "expected exactly one serialize_seq", None
+    n = H.strip_block(H.call_args(hdr[0])[1])
+    if not (n.get("k") == "call" and n.get("ctor") == "core::option::Option::Some"):
+        return False, "sequence of indefinite length", None
+    ln = A.subst(n["args"][0])
+    if not (ln.get("k") == "mcall" and ln.get("method") == "len"):
+        return False, "announced length is not <collection>.len()", None
+    coll = A.desc(ln["recv"])
+    loops = H.for_loops(fn["body"])
+    all_loops = [x for x in H.walk(fn["body"]) if x.get("k") == "loop"]
+    if len(loops) != 1 or len(all_loops) != 1:
+        return False, "expected exactly one `for` loop over the collection", None
+    it = H.strip(loops[0]["iter"])
+    # count-preserving adaptors do not change how many elements are visited
+    while it.get("k") == "mcall" and it.get("method") in ("iter", "into_iter", "enumerate", "rev", "copied", "cloned", "by_ref", "as_slice") and not it.get("args"):
+        it = H.strip(it["recv"])
+    if A.desc(it) != coll:
+        return False, "the loop iterates %s but the header announces %s.len()" % (A.desc(it), coll), None
+    body = loops[0]["body"]
+    if body is None:
+        return False, "loop body not found", None
+    is_elem = lambda x: x.get("k") in ("call", "mcall") and x.get("callee") == "serde_core::ser::SerializeSeq::serialize_element"
+    paths = effect_paths(body, is_elem)
+    for p in paths:
+        if p.done == "try-err":
+            continue   # the whole serialisation fails
+        if p.done in ("ret", "break", "diverge") or p.loops:
+            return False, "the loop can stop before all announced elements are emitted (%s)" % p.done, None
+        k = len(p.effects)
+        if k != 1:
+            return False, "an iteration emits %d elements on some path (e.g. a `continue` / conditional emission) while the header announces one per entry" % k, None
+    ends = [c for c in calls if c.get("callee") == "serde_core::ser::SerializeSeq::end"]
+    if len(ends) != 1:
+        return False, "the sequence is not ended exactly once", None
+    return True, "", {"collection": coll}
